@@ -8,6 +8,8 @@ import subprocess
 from . import core
 
 _proc = None   # (owner pid, Popen, receive buffer)
+_inherited = False   # True in a forked child that talks to its parent's driver (the parent is blocked meanwhile)
+_abandoned = False   # the child gave the inherited driver up (hang / dirty / explicit stop): the parent has to restart it
 
 
 class DriverDied(core.HarnessError):
@@ -22,7 +24,7 @@ def _stderr_tail(p):
 
 
 def _roundtrip(req, timeout_s):
-    global _proc
+    global _proc, _inherited, _abandoned
     _pid, p, buf = _proc
     data = (json.dumps(req, ensure_ascii=True, separators=(',', ':')) + '\n').encode('ascii')
     try:
@@ -30,6 +32,8 @@ def _roundtrip(req, timeout_s):
         p.stdin.flush()
     except (BrokenPipeError, OSError):
         _proc = None
+        _abandoned = _abandoned or _inherited
+        _inherited = False
         raise DriverDied('node driver stdin closed: %s' % _stderr_tail(p))
     fd = p.stdout.fileno()
     while True:
@@ -45,17 +49,35 @@ def _roundtrip(req, timeout_s):
         if not ready:
             p.kill()
             _proc = None
+            _abandoned = _abandoned or _inherited
+            _inherited = False
             raise DriverDied('node driver timed out after %ss on %s' % (timeout_s, json.dumps(req)[:300]))
         chunk = os.read(fd, 1 << 16)
         if not chunk:
             _proc = None
+            _abandoned = _abandoned or _inherited
+            _inherited = False
             raise DriverDied('node driver closed stdout: %s' % _stderr_tail(p))
         buf += chunk
 
 
+def adopt_inherited():
+    """Called first thing in a forked child whose parent owns a live driver and waits for the child: requests go to the
+    same Node process (one at a time, so the line protocol stays in step). The child never closes or reaps it."""
+    global _proc, _inherited, _abandoned
+    _abandoned = False
+    if _proc is not None and _proc[0] != os.getpid():
+        _proc = (os.getpid(), _proc[1], _proc[2])
+        _inherited = True
+
+
+def abandoned():
+    return _abandoned
+
+
 def ensure():
     global _proc
-    if _proc is not None and _proc[0] == os.getpid() and _proc[1].poll() is None:
+    if _proc is not None and _proc[0] == os.getpid() and (_inherited or _proc[1].poll() is None):
         return
     js_dir = os.path.join(core.REPO, 'rbql-js')
     driver = os.path.join(core.VERIF, 'js', 'driver.js')
@@ -78,7 +100,13 @@ def call(req, timeout_s=60):
 
 
 def stop():
-    global _proc
+    global _proc, _inherited, _abandoned
+    if _proc is not None and _inherited:
+        # not ours to close or reap: leave it to the parent, and use a driver of our own from here on
+        _proc = None
+        _inherited = False
+        _abandoned = True
+        return
     if _proc is not None and _proc[0] == os.getpid():
         try:
             _proc[1].stdin.close()
